@@ -496,6 +496,7 @@ func C04Cases(tier string, seed int64) []Case {
 	cases = append(cases, c04RedistributeCases(tier)...)
 	cases = append(cases, c04CanettiCases(tier)...)
 	cases = append(cases, c04Dkls23Cases(tier)...)
+	cases = append(cases, c04BoldyrevaCases(tier)...)
 	return cases
 }
 
